@@ -79,6 +79,22 @@ CLAIMED = {
         technique="AST->SMT-LIB encoding decided by z3 and cvc5 (text conversion); bounded symbolic "
                   "execution with CrossHair/z3 over symbolic clock instants (policy)",
         ref="3 C19"),
+    "C12": dict(
+        text="For 12 groups of public creating/mutating call sites (all create_* of File/Block/Source/"
+             "Section, create_feature, create_property, Property.values/extend_values, the three "
+             "append_*_dimension, RangeDimension.ticks, Dimension.link_data_array, DataSet.append, "
+             "link-list appends, 17 attribute setters) and every combination of argument classes "
+             "from their tables (fresh/empty/slash/duplicate name, empty type, unsupported dtype as a "
+             "backend fault, inconvertible data, wrong shapes, unordered ticks, wrong kind, foreign "
+             "block, bad index, None, wrong Python type): whenever the call raises, the complete raw "
+             "object store is identical to the snapshot taken before and a valid call then succeeds.",
+        note="Selectors over the argument-class tables are symbolic (solver-enumerated finite domain); "
+             "'arbitrary valid history' is represented by one fixture containing every entity kind; "
+             "runs on fakeh5 with two modelled backend faults (dataset creation refuses a dtype; "
+             "text cannot be written into a numeric dataset). Counterexamples are replayed on a real "
+             "HDF5 file comparing an API-level picture of the whole file. One known finding "
+             "(KF-C12-1, known_findings.json).",
+        ref="3 C12"),
 }
 
 NOT_APPLICABLE = {
